@@ -8,11 +8,15 @@
         the model encrypts the five input tuples and compares its own ciphertexts
    6002 LWE sk, the same experiment (header = C01 header, vectors as 1002)
    6004 standard GGLWE-shaped object (kind ps[9]: 0 GGLWE, 1 switching key, 2 automorphism key, 3 tensor key,
-        4 entry ps[15] of a GGLWE->GGSW key); header = C19 header
+        4 entry ps[15] of a GGLWE->GGSW key, 5 LWE switching key, 6 GLWE->LWE key, 7 LWE->GLWE key -- for 5..7 the LWE secret
+        enters as sigma_{-1} of its zero-padded polynomial, computed by the harness with the library's own automorphism);
+        header = C19 header
         vs  = [m (rank_in*n); s_out (rank_out*n); ua (the single mask stream, cells in draw order: col outer, row inner);
                errors (draw order); ua' (same prefix of the stream of the flipped mask seed); errors' (flipped error seed)]
         out = [cells in slot order; flags [deterministic; mask_eq(m'); mask_eq(e'); body_eq(e'); mask_eq(ua')]]
-   6005 standard GGSW: vs = [m (n); s (rank*n); ua; errors; ua'; errors'], cells (row, col_j), plaintext on column col_j
+   6005 standard GGSW (kind 0), or entry ps[15] of a CGGI blind-rotation key over an LWE secret of dimension ps[4] (kind 1: GGSW i
+        encrypts the constant polynomial s_lwe[i]; mask and error streams continue from GGSW to GGSW):
+        vs = [m (n); s (rank*n); ua; errors; ua'; errors'], cells (row, col_j), plaintext on column col_j
    6020 statistics (support, not proof): vs = [numbers], out = [the same numbers recomputed]; see C06Oracle.v *)
 From PV Require Import Base.MachineInt Model.Znx Model.Limbs Model.Flat Model.DftAbs Model.EncModel Model.C01Run Model.C19Run.
 Open Scope Z_scope.
@@ -59,8 +63,14 @@ Definition digits (b : Z) (us : list Z) : list Z := map (uniform_digit b) us.
 (* flags of a standard gadget object predicted from the non-interference theorems:
    [deterministic; mask_eq under another plaintext; mask_eq under another error seed; body_eq under another error seed
     (only if the replayed errors coincide); mask_eq under another mask seed (only if the digits coincide)] *)
-Definition gadget_flags (b : Z) (ua ua' errs errs' : list Z) : list Z :=
-  [1; 1; 1; bz (eqlz errs errs'); bz (eqlz (digits b ua) (digits b ua'))].
+(* two error vectors give the same bodies iff they agree modulo 2^((limb+1) b): the error sits on limb `limb` of a value on the
+   torus, so a difference that is a multiple of 2^((limb+1) b) is a whole number of turns (only possible when the noise is wider
+   than the torus at that limb, i.e. degenerate parameters) *)
+Definition errs_same_on_torus (b nk : Z) (errs errs' : list Z) : bool :=
+  let M := 2 ^ ((Z.of_nat (target_limb nk b) + 1) * b) in
+  Nat.eqb (length errs) (length errs') && forallb (fun q => (fst q - snd q) mod M =? 0) (combine errs errs').
+Definition gadget_flags (b nk : Z) (ua ua' errs errs' : list Z) : list Z :=
+  [1; 1; 1; bz (errs_same_on_torus b nk errs errs'); bz (eqlz (digits b ua) (digits b ua'))].
 
 Definition run_gglwe_std (ps : list Z) (vs : list (list Z)) : option (list (list Z)) :=
   let wb := wbig (p ps 0) in
@@ -76,7 +86,7 @@ Definition run_gglwe_std (ps : list Z) (vs : list (list Z)) : option (list (list
            gadget_cell wb b n size rout dsize nk row O (nth col ms []) sk
              (slice (d * clen) clen (v vs 2)) (slice (d * clen) clen (v vs 2)) (slice (d * n) n (v vs 3))) slots) with
   | None => None
-  | Some cells => Some [concat (map (of_cols n size) cells); gadget_flags b (v vs 2) (v vs 4) (v vs 3) (v vs 5)]
+  | Some cells => Some [concat (map (of_cols n size) cells); gadget_flags b nk (v vs 2) (v vs 4) (v vs 3) (v vs 5)]
   end.
 
 Definition run_ggsw_std (ps : list Z) (vs : list (list Z)) : option (list (list Z)) :=
@@ -93,7 +103,7 @@ Definition run_ggsw_std (ps : list Z) (vs : list (list Z)) : option (list (list 
            gadget_cell wb b n size rank dsize nk row col m sk
              (slice (d * clen) clen (v vs 2)) (slice (d * clen) clen (v vs 2)) (slice (d * n) n (v vs 3))) slots) with
   | None => None
-  | Some cells => Some [concat (map (of_cols n size) cells); gadget_flags b (v vs 2) (v vs 4) (v vs 3) (v vs 5)]
+  | Some cells => Some [concat (map (of_cols n size) cells); gadget_flags b nk (v vs 2) (v vs 4) (v vs 3) (v vs 5)]
   end.
 
 Definition run_c06 (code : Z) (ps : list Z) (vs : list (list Z)) : option (list (list Z)) :=
